@@ -285,6 +285,21 @@ func Parse(input interface{}) core.Value {
 			return obj
 		}
 
+		// unsigned integers and values of defined types
+		// (type Celsius float64) are not matched by the type switch above
+		switch kind {
+		case reflect.Bool:
+			return NewBoolean(v.Bool())
+		case reflect.Int, reflect.Int8, reflect.Int16, reflect.Int32, reflect.Int64:
+			return NewInt(int(v.Int()))
+		case reflect.Uint, reflect.Uint8, reflect.Uint16, reflect.Uint32, reflect.Uint64, reflect.Uintptr:
+			return NewInt(int(v.Uint()))
+		case reflect.Float32, reflect.Float64:
+			return NewFloat(v.Float())
+		case reflect.String:
+			return NewString(v.String())
+		}
+
 		return None
 	}
 }
